@@ -217,5 +217,40 @@ def check(index, ctx):
                             ctx.undecided("R2", "UPGrad: projected weight rows are summed over the axis indexing the projected vectors",
                                           "no reduction of the projected weights was recognised (the sum may be written as a loop)", cls.loc())
     ctx.floor("returning paths of UPGrad/DualProj", n, 4)
+    _fixed_dtype_conversions(index, ctx)
     _agg.common_evidence(ctx, index)
     ctx.assumptions.append("exactness and uniqueness of the QP solution, and the two 'consequently' clauses, are numerical and NOT decided")
+
+
+def _fixed_dtype_conversions(index, ctx):
+    """R6: the preference vector and the values derived from the matrix keep the precision they were given in. A conversion to the process-wide default
+    dtype (torch.get_default_dtype()) or to a literal reduced floating dtype, in the modules UPGrad / DualProj are made of, rounds a float64 preference
+    vector (or Gramian) to float32: the projection is then that of another vector. (float64 literals only widen and are what the numpy solver wants.)"""
+    import ast
+
+    ctx.rule("R6", "no tensor is converted to torch.get_default_dtype() or to a literal float32 / float16 / bfloat16 dtype (.to / .type / dtype= / .float() / .half() / .bfloat16()) in the modules "
+                   "UPGrad and DualProj are made of (upgrad, dualproj, _pref_vector_utils, constant, mean, _dual_cone_utils, _gramian_utils, bases): a float64 preference vector or matrix keeps its precision")
+    mods = ("upgrad", "dualproj", "_pref_vector_utils", "constant", "mean", "_dual_cone_utils", "_gramian_utils", "bases")
+    NARROW = ("float32", "float", "float16", "half", "bfloat16")
+    n = 0
+    for fi in index.all_functions("torchjd.aggregation"):
+        if fi.parent is not None or fi.module.name.split(".")[-1] not in mods:
+            continue
+        n += 1
+        for c in ast.walk(fi.node):
+            if not isinstance(c, ast.Call):
+                continue
+            bad = None
+            if isinstance(c.func, ast.Attribute) and c.func.attr in ("float", "half", "bfloat16") and not c.args and not c.keywords and not (isinstance(c.func.value, ast.Name) and c.func.value.id in ("torch", "np", "numpy")):
+                bad = f".{c.func.attr}()"
+            cands = [k.value for k in c.keywords if k.arg == "dtype"]
+            if isinstance(c.func, ast.Attribute) and c.func.attr in ("to", "type", "astype"):
+                cands += list(c.args)
+            for v in cands:
+                t = ast.unparse(v)
+                if t in ("torch.get_default_dtype()", "get_default_dtype()") or (isinstance(v, ast.Attribute) and isinstance(v.value, ast.Name) and v.value.id in ("torch", "np", "numpy") and v.attr in NARROW):
+                    bad = t
+            if bad is not None:
+                ctx.violated("R6", f"{fi.short}: `{ast.unparse(c)[:70]}`", f"converts to {bad}, a dtype that does not depend on the input: a float64 preference vector / matrix is rounded to single "
+                             "precision (or the result no longer has the precision of the matrix), so the weights are the projection of another vector", fi.loc(c))
+    ctx.require(n > 0, "R6", "UPGrad/DualProj modules: no conversion to a fixed reduced or default dtype", f"{n} functions scanned", "no function of the listed modules found", "")
